@@ -129,6 +129,19 @@ func init() {
 		}),
 		opSafe("Set k", func(w *SWorld, st *TState) error { return w.C(st.T).SetRaw("k", 0, nil, []byte("w1")) }),
 	}
+	feedStartLive := []SOp{
+		opSafe("StartDCPFeed(no backfill)", func(w *SWorld, st *TState) error {
+			f := NewFeedRec("lv")
+			w.Feeds = append(w.Feeds, f)
+			return w.C(st.T).StartDCPFeed(ctx, sgbucket.FeedArguments{ID: "lv", Backfill: sgbucket.FeedNoBackfill, Terminator: f.Term, DoneChan: f.Done}, f.callback, nil)
+		}),
+	}
+	ddocWriter := []SOp{
+		opSafe("PutDDoc", func(w *SWorld, st *TState) error {
+			return w.C(st.T).PutDDoc(ctx, "d2", &sgbucket.DesignDoc{Views: sgbucket.ViewMap{"v": sgbucket.ViewDef{Map: `function(doc,meta){emit(meta.id,1)}`}}})
+		}),
+		opSafe("DeleteDDoc", func(w *SWorld, st *TState) error { return w.C(st.T).DeleteDDoc("d2") }),
+	}
 	viewSetup := func(w *SWorld) {
 		must(w.A[0].PutDDoc(ctx, "dd", &sgbucket.DesignDoc{Views: sgbucket.ViewMap{"v": sgbucket.ViewDef{Map: `function(doc,meta){emit(meta.id,null)}`}}}))
 		must(w.A[0].Set("k", 0, nil, []byte(`{"a":1}`)))
@@ -169,9 +182,28 @@ func init() {
 			registerC20("writer", cfg.disk, cfg.h, docs, writer, sd)
 			registerC20("expwriter", cfg.disk, cfg.h, docs, expWriter, sd)
 			registerC20("feedstart", cfg.disk, cfg.h, docs, feedStart, sd)
+			registerC20("feedstart-live", cfg.disk, cfg.h, docs, feedStartLive, sd)
 			registerC20("viewupdate", cfg.disk, cfg.h, viewSetup, viewAfter, sd)
+			registerC20("ddocwriter", cfg.disk, cfg.h, viewSetup, ddocWriter, sd)
 			registerC20("expiry", cfg.disk, cfg.h, expSetup, timerDue, sd)
 		}
+	}
+	// the same handle closed by two goroutines at once, a sibling handle open: one reference is released
+	for _, disk := range []bool{false, true} {
+		full := fmt.Sprintf("X-Close-vs-Close-same-handle/%s/h2", ifs(disk, "disk", "mem"))
+		closeH0 := opSafe("Close(handle 0)", func(w *SWorld, st *TState) error { w.H[0].Close(ctx); return nil })
+		RegisterScenario(&Scenario{Name: full, Prop: []string{"C20", "C13"}, Disk: disk, Handles: 2, Setup: docs,
+			Threads: [][]SOp{{closeH0}, {closeH0}},
+			Check: func(w *SWorld, ops []OpRec, final string) []Violation {
+				var vs []Violation
+				if _, _, err := w.A[1].GetRaw("k"); err != nil {
+					vs = append(vs, Violation{Prop: "C13", Op: full, Pre: "sched", Field: "sibling-broken", Detail: "handle 0 was closed by two goroutines at once; the other, still open handle now fails: " + err.Error()})
+				}
+				if counts, _ := rosmar.VerifRegistry(); counts["b1"] != 1 {
+					vs = append(vs, Violation{Prop: "C13", Op: full, Pre: "sched", Field: "refcount", Detail: fmt.Sprintf("one of two handles was closed (twice, concurrently); the reference count is %d", counts["b1"])})
+				}
+				return vs
+			}})
 	}
 	// two shutdown calls racing each other
 	for i, a := range shutdowns {
